@@ -47,7 +47,7 @@ def gen_value(rng, kind, tricky):
     if kind == 'str':
         return rng.choice(TRICKY) if tricky and rng.random() < 0.6 else rng.choice(PLAIN)
     if kind == 'int':
-        return rng.choice([0, 1, 2, 50, 500, -1])
+        return rng.choice([0, 1, 2, 50, 500, -1, 9007199254740993, -9007199254740993, 4611686018427387905, 2.5])
     if kind == 'bool':
         return rng.choice([True, False])
     if kind == 'list':
@@ -152,6 +152,25 @@ def run_templates(ctx, n):
         scen.append({'tpl': tpl, 'kind': kind, 'dir': d})
         jobs.append({'args': ['rulegen', '-t', 't.json'], 'cwd': d})
     res = e2e.run_many(jobs)
+    # the same rules through --output, onto a file that already holds (longer) rules from an earlier run
+    stale = '# rules of an earlier run\n' + ''.join('rule stale_%d {\n  Resources.*.Properties.P%d exists\n}\n' % (i, i) for i in range(300))
+    ojobs = []
+    for sc in scen:
+        e2e.write_files(sc['dir'], {'out.guard': stale})
+        ojobs.append({'args': ['rulegen', '-t', 't.json', '-o', 'out.guard'], 'cwd': sc['dir']})
+    ores = e2e.run_many(ojobs)
+    for sc, (code, so, se), (ocode, oso, ose) in zip(scen, res, ores):
+        if code != 0 or ocode != code:
+            if ocode != code:
+                ctx.failing('rulegen --output exits %s, to stdout %s' % (ocode, code), {'class': 'rulegen', 'template': sc['tpl']}, found=True)
+            continue
+        try:
+            written = open(os.path.join(sc['dir'], 'out.guard'), encoding='utf-8', errors='replace').read()
+        except OSError:
+            written = None
+        if written is None or written.strip() != so.decode('utf-8', 'replace').strip():
+            ctx.failing('rulegen --output onto an existing file leaves text that differs from what it prints to stdout (%d vs %d characters)'
+                        % (len(written or ''), len(so)), {'class': 'rulegen', 'template': sc['tpl'], 'file_tail': (written or '')[-200:]}, found=True)
     aops, idx = [], []
     for k, (sc, (code, so, se)) in enumerate(zip(scen, res)):
         sc['code'], sc['rules'], sc['stderr'] = code, so.decode('utf-8', 'replace'), se.decode('utf-8', 'replace')
@@ -262,7 +281,7 @@ def run(ctx):
     thorough = ctx.tier == 'thorough'
     n = run_templates(ctx, 600 if thorough else 90)
     ctx.coverage['distinct_nontrivial'] = n
-    ctx.coverage['rule'] = ('templates: 1..5 resources over 1..3 types, 1..3 properties per type (string, int, bool, list, map), repeated and distinct values; kinds: plain (uniform property '
+    ctx.coverage['rule'] = ('templates: 1..5 resources over 1..3 types, 1..3 properties per type (string, int incl. integers beyond 2^53, 2.5, bool, list, map), each also written with --output onto an existing longer file, repeated and distinct values; kinds: plain (uniform property '
                             'sets, plain strings), nonuniform, tricky strings, mixed list/scalar - the last three are the recorded deviations; counted: templates for which rules were emitted')
     ctx.coverage['trusted_base'] = [
         'Coq 8.16.1 kernel (coqc), vm_compute for case evaluation; no axioms',
